@@ -18,7 +18,10 @@
 (*    examined the same way.                                                 *)
 (* Scenarios: "addr" - Windows access violation without exception context;   *)
 (* "gpf" - Linux SIGSEGV/SI_KERNEL with context, instruction mov rax,[rbx];  *)
-(* "null" - the same instruction with rbx = 0.                               *)
+(* "null" - the same instruction with rbx = 0; "reg" - Windows access        *)
+(* violation with a known access kind AND an exception context whose rip     *)
+(* points at mov al,[rbx+0x10] / mov [rbx+0x10],al: the crash address is     *)
+(* rbx + 16, and rbx is examined as well, under the same access kind.        *)
 (***************************************************************************)
 EXTENDS Naturals, Sequences, TLC, FiniteSets, Json
 LoBits == 20
@@ -47,7 +50,10 @@ PickGpf == /\ scen = "none" /\ scen' = "gpf" /\ cpu' = "amd64" /\ op' = "other"
            /\ addr' \in {a \in Examined : a.hi \cap (47..63) # {} /\ ~(47..63 \subseteq a.hi)}          \* a non-canonical register value
            /\ regions' \in RegionSets
 PickNull == /\ scen = "none" /\ scen' = "null" /\ cpu' = "amd64" /\ op' = "other" /\ addr' = Addr({}, 0) /\ regions' \in RegionSets
-Next == PickAddr \/ PickGpf \/ PickNull
+PickReg == /\ scen = "none" /\ scen' = "reg" /\ cpu' = "amd64" /\ op' \in {"read", "write"}
+           /\ addr' \in {a \in Examined : a.hi \cap (47..63) = {} /\ a.lo < Pow2(LoBits) - 16}           \* a canonical register value
+           /\ regions' \in RegionSets
+Next == PickAddr \/ PickGpf \/ PickNull \/ PickReg
 Spec == Init /\ [][Next]_vars
 Range == CASE scen = "gpf" -> 48..63
            [] scen = "null" -> {}
@@ -55,13 +61,17 @@ Range == CASE scen = "gpf" -> 48..63
            [] cpu = "ppc64" -> 0..63
            [] OTHER -> {}                                  \* 32-bit CPUs and ARM64: never
 Accessible(a) == \E r \in regions : In(a, r) /\ PossiblyAllowed(op, r.p)
-Flips == IF scen = "none" \/ Range = {} \/ Accessible(addr) THEN {}
-         ELSE { Flip(addr, i) : i \in {j \in Range : IsNull(Flip(addr, j)) \/ Accessible(Flip(addr, j))} }
+FlipsOf(a) == IF Accessible(a) THEN {} ELSE { Flip(a, i) : i \in {j \in Range : IsNull(Flip(a, j)) \/ Accessible(Flip(a, j))} }
+CrashAddr == IF scen = "reg" THEN Addr(addr.hi, addr.lo + 16) ELSE addr
+Flips == IF scen = "none" \/ Range = {} THEN {}
+         ELSE IF scen = "reg" THEN (IF IsNull(addr) THEN {}                     \* null pointer plus offset: nothing at all
+                                    ELSE FlipsOf(CrashAddr) \cup FlipsOf(addr))  \* the crash address, and the register of the instruction
+         ELSE FlipsOf(addr)
 \* ---- C19 on the specification ----
 OneBit(a, b) == \E i \in Range : Flip(a, i) = b
-Prop == /\ \A f \in Flips : OneBit(addr, f) /\ (IsNull(f) \/ Accessible(f))
+Prop == /\ \A f \in Flips : (OneBit(addr, f) \/ OneBit(CrashAddr, f)) /\ (IsNull(f) \/ Accessible(f))
         /\ (cpu \in {"x86", "arm64"} => Flips = {})
-        /\ (Accessible(addr) => Flips = {})
+        /\ ((Accessible(addr) /\ Accessible(CrashAddr)) => Flips = {})
         /\ (scen = "null" => Flips = {})
 Ser(a) == [hi |-> a.hi, lo |-> a.lo]
 Emit == scen # "none" => PrintT(<<"CASE", ToJson([scen |-> scen, cpu |-> cpu, op |-> op, addr |-> Ser(addr), regions |-> regions, flips |-> {Ser(f) : f \in Flips}])>>)
